@@ -641,7 +641,9 @@ impl CompactionWorker {
                         // Prioritize compacting an immutable memtable if there is one
                         let memtable_compaction_start = Instant::now();
                         let mut db_mutex_guard = db_state.guarded_db_fields.lock();
-                        if db_mutex_guard.maybe_immutable_memtable.is_some() {
+                        if db_mutex_guard.maybe_immutable_memtable.is_some()
+                            && db_mutex_guard.maybe_bad_database_state.is_none()
+                        {
                             // The outputs of this table compaction are not part of any version
                             // yet, so the flushed file must not be placed below level 0
                             CompactionWorker::compact_memtable(
@@ -804,6 +806,13 @@ impl CompactionWorker {
         };
         db_fields_guard.compaction_stats[compaction_state.compaction_manifest().level() + 1] +=
             compaction_stats;
+
+        if compaction_error.is_none() {
+            // A memtable flush that ran in the middle of this compaction may have failed. The
+            // manifest can end in a partially written record after that, and nothing may be
+            // appended behind it, so the results of this compaction are not installed either.
+            compaction_error = db_fields_guard.maybe_bad_database_state.clone();
+        }
 
         if compaction_error.is_none() {
             let install_result = CompactionWorker::install_compaction_results(
